@@ -1,10 +1,10 @@
 CONSTANTS
   M = 16
-  MaxPackets = 5
+  MaxPackets = 4
   MinPackets = 1
   FrameSizes = {1, 2, 3}
   SameTs = FALSE
-  MaxLates = {2, 3}
+  MaxLates = {2}
   Delays = {0}
   StartBacks = {2, 9}
   MarkerModes = {TRUE, FALSE}
@@ -13,17 +13,17 @@ CONSTANTS
   Modes = {"all"}
   MaxLoss = 1
   MaxDup = 1
-  MaxPopCalls = 1
-  MaxMidFlush = 1
-  Eagers = {FALSE}
+  MaxPopCalls = 2
+  MaxMidFlush = 0
+  Eagers = {FALSE, TRUE}
   Holds = {0}
   HoldFors = {0}
   Situations = FALSE
   Algo = "ring"
-  Impl = "fixABC"
+  Impl = "current"
   Sampling = FALSE
 INIT Init
 NEXT Next
 VIEW mcview
-INVARIANTS ModelContiguousSameTs ModelStartsAtHead ModelInOrder ModelNoPacketTwice ModelComplete ModelFilledSane
+INVARIANTS ModelContiguousSameTs ModelStartsAtHead ModelInOrder ModelNoPacketTwice ModelComplete ModelFilledSane EmitDone
 CHECK_DEADLOCK FALSE
